@@ -103,7 +103,14 @@ func snesvcDump(prefix string, v reflect.Value, out map[string]uint64) {
 	}
 }
 
-func snesvcReport(idx int, rets []uint64, cpus map[string]interface{}, rams [][]byte, panicked interface{}) {
+func snesvcReport(idx int, rets []interface{}, cpus map[string]interface{}, rams [][]byte, panicked interface{}) {
+	for i, r := range rets {
+		if rv := reflect.ValueOf(r); rv.Kind() == reflect.Struct {
+			m := map[string]uint64{}
+			snesvcDump("", rv, m)
+			rets[i] = m
+		}
+	}
 	o := map[string]interface{}{"idx": idx, "rets": rets}
 	for n, c := range cpus {
 		m := map[string]uint64{}
@@ -233,7 +240,7 @@ func genCPUCase(w *World, idx int, cs cpuReplayCase) string {
 			}
 			prefixes := []string{"cpu."}
 			if isAlt {
-				prefixes = []string{"alt.", "cpu."}
+				prefixes = []string{"cpu.", "alt."}
 			}
 			genFieldSets(&b, v, pt, "", prefixes, val)
 			args = append(args, v)
@@ -258,6 +265,8 @@ func genCPUCase(w *World, idx int, cs cpuReplayCase) string {
 			conv = append(conv, fmt.Sprintf("func() uint64 { if r%d { return 1 }; return 0 }()", i))
 		} else if isScalarType(rs.At(i).Type()) {
 			conv = append(conv, fmt.Sprintf("uint64(r%d)", i))
+		} else if _, isSt := rs.At(i).Type().Underlying().(*types.Struct); isSt {
+			conv = append(conv, fmt.Sprintf("r%d", i))
 		} else {
 			conv = append(conv, "0")
 			lhs[i] = "_"
@@ -278,7 +287,7 @@ func genCPUCase(w *World, idx int, cs cpuReplayCase) string {
 	} else {
 		fmt.Fprintf(&b, "\t\t%s\n", call)
 	}
-	fmt.Fprintf(&b, "\t\tsnesvcReport(%d, []uint64{%s}, %s, %s, nil)\n", idx, strings.Join(conv, ", "), cpus, rams)
+	fmt.Fprintf(&b, "\t\tsnesvcReport(%d, []interface{}{%s}, %s, %s, nil)\n", idx, strings.Join(conv, ", "), cpus, rams)
 	fmt.Fprintf(&b, "\t}()\n")
 	return b.String()
 }
@@ -361,7 +370,7 @@ func judgeCPU(w *World, cs cpuReplayCase, o map[string]interface{}, rep map[stri
 				isAlt := strings.Contains(pt.String(), "cpualt")
 				prefixes := []string{"cpu."}
 				if isAlt {
-					prefixes = []string{"alt.", "cpu."}
+					prefixes = []string{"cpu.", "alt."}
 				}
 				pre.Heap[obj.ID] = concreteStruct(x, pt, "", func(name string) (uint64, bool) {
 					for _, pf := range prefixes {
@@ -397,6 +406,15 @@ func judgeCPU(w *World, cs cpuReplayCase, o map[string]interface{}, rep map[stri
 			for i := 0; i < rs.Len() && i < len(rl); i++ {
 				f, _ := rl[i].(float64)
 				t := rs.At(i).Type()
+				if sm, isM := rl[i].(map[string]interface{}); isM {
+					rets = append(rets, concreteStruct(x, t, "", func(name string) (uint64, bool) {
+						if fv, ok := sm[name].(float64); ok {
+							return uint64(fv), true
+						}
+						return 0, false
+					}))
+					continue
+				}
 				if isBool(t) {
 					rets = append(rets, Scalar{BoolC(f != 0)})
 				} else if wd, _, okb := bitsOf(t); okb {
